@@ -7,6 +7,7 @@ import Rend.Wire.Decode
 import Rend.Handlers.Std
 import Rend.Handlers.Chunked
 import Rend.Gen.Asm
+import Rend.Metrics.Hist
 
 open Rend Rend.Server
 
@@ -27,6 +28,9 @@ structure St where
   now   : Nat := 0
   fault : Option Fault := none
   spec  : Store := Store.empty      -- the single map of the specification (oracle)
+  hist  : Metrics.HDat := { ring := List.replicate Metrics.ringLen 0 }
+  hbak  : List Nat := List.replicate Metrics.ringLen 0
+  hsamp : Bool := false
 
 def fnv64 (b : Bytes) : Nat :=
   b.foldl (fun h c => ((h ^^^ c.toNat) * 1099511628211) % 18446744073709551616) 14695981039346656037
@@ -177,6 +181,19 @@ def step (st : St) (line : String) : St × List String :=
           | some v => s!"{v.toNat}"
           | none => "stuck"])
   | ["fn", "stripe", bits, key] => (st, [s!"{stripeOf bits.toNat! (unhex key)}"])
+  | ["histnew", sampled] =>
+    ({ st with hist := { ring := List.replicate Metrics.ringLen 0 }, hbak := List.replicate Metrics.ringLen 0,
+               hsamp := sampled == "1" }, [])
+  | ["histobs", vs] =>
+    let obs := (vs.splitOn ",").filterMap String.toNat?
+    ({ st with hist := Metrics.observeAll st.hsamp st.hist obs }, [])
+  | ["histextract"] =>
+    -- extractHist: report the period, continue with the backup ring, keep the reported ring as backup
+    let h := st.hist
+    let sorted := (Metrics.usedSlice h).mergeSort (fun a b => decide (a ≤ b))
+    let ps := if h.count == 0 then List.replicate 23 0 else Metrics.percentiles h sorted
+    ({ st with hist := { ring := st.hbak }, hbak := h.ring },
+     [s!"{h.count} {h.kept} {h.min} {h.max} " ++ ",".intercalate (ps.map toString)])
   | "dump" :: tier :: keys =>
     let t := tierOf tier
     let s := st.run.w.get t
